@@ -46,6 +46,9 @@ pub struct Case {
     /// Plan of the logsim engine (C12).
     #[serde(default)]
     pub log_plan: Option<crate::logsim::LogPlan>,
+    /// Embedded corrupted image + expectations (C15 replay files).
+    #[serde(default)]
+    pub corrupt: Option<crate::corrupt::CorruptSpec>,
 }
 
 #[derive(Default, Clone, Debug, Serialize)]
@@ -180,6 +183,9 @@ pub struct RunOutput {
     pub history_digest: u64,
     pub fs_digest: u64,
     pub completed: bool,
+    /// A self-contained case reproducing the first finding (engines whose fault point cannot be
+    /// re-derived from the seed alone, e.g. corruption of process-dependent manifest bytes).
+    pub derived: Option<Box<Case>>,
 }
 
 impl RunOutput {
@@ -210,6 +216,7 @@ pub struct CaseResult {
     /// Reason the shuttle execution ended abnormally, if it did.
     pub abort: Option<String>,
     pub replay_diverged: Option<u64>,
+    pub derived: Option<Box<Case>>,
 }
 
 impl CaseResult {
@@ -377,6 +384,7 @@ where
         completed: out.completed,
         abort,
         replay_diverged: sched.replay_diverged,
+        derived: out.derived,
     }
 }
 
